@@ -74,6 +74,9 @@ func CuratedSpecs() []*StructSpec {
 	}
 	wide.f(40, Default, tlist(ts(KString))).f(41, Default, tmap(ts(KI32), ts(KString))).f(42, Default, ts(KBinary)).f(43, Default, ts(KI32))
 	add(wide)
+	// a recursive type whose required field comes after its links on the wire (C15: the kind of the
+	// error for over-deep input must not depend on what the enclosing structs still wait for)
+	add(newS("RecReq").f(1, Optional, tref("RecReq", true)).f(2, Default, tlist(tref("RecReq", true))).f(3, Required, ts(KI64)).holder())
 	// mutual recursion (C07, C08, C13 orders of first use)
 	add(newS("MutA").f(1, Optional, tref("MutB", true)).f(2, Required, ts(KI64)))
 	add(newS("MutB").f(1, Default, tlist(tref("MutA", true))).f(2, Optional, tref("MutC", true)))
@@ -137,7 +140,11 @@ func CuratedSpecs() []*StructSpec {
 	// (what one map entry or list element leaves unset must not come from its neighbour)
 	add(newS("ValLeaf").f(1, Optional, ts(KString)).f(2, Optional, tlist(ts(KI32))).f(3, Default, ts(KI32)).f(4, Optional, ts(KI64), "ptr"))
 	add(newS("ValMid").f(1, Required, ts(KI32)).f(2, Default, tref("ValLeaf", false)).f(3, Default, ts(KBool)))
+	add(newS("ValReq").f(1, Required, ts(KI32)).f(2, Required, tref("ValLeaf", false)).f(3, Required, ts(KString)))
 	add(newS("ValTop").
+		f(6, Default, tmap(ts(KI32), tref("ValReq", false))).
+		f(7, Default, tlist(tref("ValReq", false))).
+		f(8, Optional, tmap(ts(KString), tref("ValReq", false))).
 		f(1, Default, tmap(ts(KI32), tref("ValMid", false))).
 		f(2, Default, tlist(tref("ValMid", false))).
 		f(3, Default, tmap(ts(KString), tref("ValMid", false))).
@@ -148,6 +155,13 @@ func CuratedSpecs() []*StructSpec {
 		f(127, Required, ts(KI8)).f(128, Required, tlist(ts(KI16))).f(1, Optional, ts(KI32), "ptr"))
 	add(newS("ReqNest").f(1, Default, tlist(tref("ReqW", true))).f(2, Default, tmap(ts(KI32), tref("ReqW", true))).
 		f(3, Optional, tref("ReqW", true)).f(4, Default, tmap(tref("ReqW", true), ts(KI32))).f(255, Required, ts(KI64)).f(256, Required, ts(KDouble)))
+	// nocopy fields with declared non-empty defaults: a message carrying exactly the default still
+	// has to be viewed, not recognised as "already there"
+	ncdefs := map[uint16]Val{1: {S: []byte("view-me-not")}, 2: {S: []byte("optional-default")}, 3: {S: []byte{9, 8, 7, 6}}, 4: {S: []byte("plain-default")}}
+	add(newS("NcDef").f(1, Default, ts(KString), "nocopy").f(2, Optional, ts(KString), "nocopy").f(3, Default, ts(KBinary), "nocopy").
+		f(4, Default, ts(KString)).f(5, Default, ts(KString), "nocopy").init(false, ncdefs))
+	add(newS("NcDefOut").f(1, Optional, tref("NcDef", true)).f(2, Default, tlist(tref("NcDef", true))).f(3, Default, tref("NcDef", false)).
+		f(4, Default, tmap(ts(KI32), tref("NcDef", false))).f(5, Default, ts(KString), "nocopy"))
 	// nocopy mixes (C14)
 	add(newS("NcIn").f(1, Default, ts(KString), "nocopy").f(2, Default, ts(KBinary), "nocopy").f(3, Default, ts(KString)).
 		f(4, Optional, ts(KString), "ptr", "nocopy").f(5, Optional, ts(KBinary)).f(6, Default, tlist(ts(KString))))
